@@ -31,8 +31,12 @@ def _rel(a, b):
   a = np.asarray(a, np.float64); b = np.asarray(b, np.float64)
   if a.shape != b.shape:
     return float("inf")
-  if not (np.isfinite(a).all() and np.isfinite(b).all()):
-    return 0.0 if np.array_equal(a, b, equal_nan=True) else float("inf")
+  fa, fb = np.isfinite(a), np.isfinite(b)
+  if not (fa.all() and fb.all()):
+    # fault histories: the non-finite entries must agree exactly, the finite ones within tolerance
+    if not (np.array_equal(fa, fb) and np.array_equal(a[~fa], b[~fb], equal_nan=True)):
+      return float("inf")
+    a, b = a[fa], b[fb]
   if a.size == 0:
     return 0.0
   return float(np.abs(a - b).max() / max(np.abs(a).max(), np.abs(b).max(), 1e-30))
@@ -73,7 +77,7 @@ def handle(job):
   shapes = numeric_shapes(tree)
   names = names_for(len(tree))
   n = len(shapes)
-  classes = ["ok"] * T
+  classes = job.get("classes") or ["ok"] * T      # fault histories: per-step lists of per-parameter classes
   mism, traces = [], []
   worst = {k: 0.0 for k in TOL}
   ref = None
@@ -147,7 +151,7 @@ def handle(job):
                      "detail": [ex, job["exps"][str(D)]]})
     # ---- V: gate / cadence traces of this run -----------------------------------------------------
     cfg = spec_cfg(oD)
-    for k, ev in enumerate(events):
+    for k, ev in enumerate(events if o.get("metrics", True) else []):   # no error figure without metrics
       traces.append({"cfg": cfg, "events": ev, "meta": {"o": oD, "tree": tree, "seed": seed, "stat": k}})
     # ---- cross-D: equal to the single-device run up to compilation-level rounding -------------------
     cur = {"stats": [[np.asarray(x, np.float64)[:s, :s] for x, s in zip(kp["stats"], sizes)] for kp in kept],
